@@ -2367,6 +2367,37 @@ struct Explorer {
         if (p != v->producer.end() && v->stmts[p->second].restat && c.finished && c.status == 0 && !c.wrote) restat_nowrite = true;
       }
       x.facts.set("restat_statement_ran_without_rewriting", restat_nowrite);
+      // F74 in this property's words: the only statements that run here and not in the twin are restat statements by dyndep
+      // information whose dyndep file is re-made in this very build *and* that a declared input made look out of date when
+      // the plan was drawn up (before anything said restat); the twin, which has restat in the manifest, prunes them
+      {
+        bool only_f74 = !a.empty(), any_extra = false;
+        for (auto& i : b) if (!a.count(i)) only_f74 = false;
+        for (auto& i : a) {
+          if (b.count(i)) continue;
+          any_extra = true;
+          auto p = v->producer.find(i);
+          if (p == v->producer.end()) { only_f74 = false; continue; }
+          const Stmt& ps = v->stmts[p->second];
+          bool by_dyndep = !ps.restat && ps.spec.restat && !ps.dyndep.empty() && Started(r, ps.dyndep);
+          bool declared_newer = false;
+          const vfs::File* o = before.Get(ps.id);
+          for (auto* l : {&ps.ex, &ps.im})
+            for (auto& in : *l) { const vfs::File* f = before.Get(in); if (o && f && f->mtime > o->mtime) declared_newer = true; }
+          // ... or downstream of such a statement only (it runs because that one ran)
+          bool downstream = false;
+          if (!by_dyndep) {
+            set<int> up;
+            Upstream(*v, p->second, &up);
+            for (int u : up) {
+              const Stmt& us = v->stmts[u];
+              if (!us.restat && us.spec.restat && !us.dyndep.empty() && Started(r, us.dyndep) && a.count(us.id) && !b.count(us.id)) downstream = true;
+            }
+          }
+          if (!((by_dyndep && declared_newer) || downstream)) only_f74 = false;
+        }
+        x.facts.set("only_restat_by_dyndep_statements_planned_before_their_remade_dyndep_file_was_loaded_run_in_addition", only_f74 && any_extra);
+      }
       out->push_back(x);
     }
     // ordering on discovered / dyndep-supplied inputs (hidden reads and reads beyond the declared ones)
